@@ -428,17 +428,8 @@ def features(st):
         last_seg = [it for it in items if it[0] == "seg"][-1]
         if last_seg[2][2] == "bare" and not pyparsable(last_seg[1])[0]:
             out.add(K_RPAREN_EOL)
-    # -- B2: a Python-parsable operand directly before a `)`, with an unclosed-looking `!(` `$(` `@(` earlier on the line that
-    #        phase 1 did not hide inside a ![ ] (it sits in a Python-parsable operand or in an explicit operand)
-    seen_nonplain = False
-    for i, it in enumerate(items):
-        if it[0] == "seg":
-            node = it[2]
-            if seg_is_py(it) and node[2] == "bare" and seen_nonplain and i + 1 < len(items) and items[i + 1] == (")",):
-                out.add(K_STALE_PAREN)
-            txt = it[1] if node[2] == "bare" else {"![": "![", "!(": "!("}[node[2]] + it[1]
-            if seg_is_py(it) and node[2] != "![" and any(p in txt for p in NONPLAIN_LPAREN):
-                seen_nonplain = True
+    # (the stale-paren sub-chain drop, K_STALE_PAREN, was repaired by e204b18: its shape is part of the clean grammar again and a
+    #  recurrence is a violation)
     # -- E: inside a group, an operand that is an incomplete Python expression: the error is reported at the chain operator / `)` after
     #        it, the execer "goes greedy" and wraps the WHOLE group as one subprocess (a subshell command)
     depth = 0
@@ -455,7 +446,7 @@ def features(st):
     # -- C: a Python-parsable operand that is not the last thing on a logical line spanning several physical lines
     if multi:
         for k, (i, it) in enumerate(segs):
-            if it[2][2] == "bare" and pyparsable(it[1])[0] and i + 1 < len(items):
+            if it[2][2] == "bare" and pyparsable(it[1])[0] and (len(items) > 1 or st["pos"] in ("after-semi", "before-semi", "cmd;cmd")):
                 out.add(K_CONT)
     # -- D: a Python-parsable operand holding a `$` construct, followed by more of the statement
     for k, (i, it) in enumerate(segs):
@@ -475,7 +466,7 @@ K_CAP = "retry-cap-rejects-input-with-many-command-segments"
 K_BOOL_IN_SUB = "boolean-operator-inside-substitution-ends-the-wrap-window"
 SYNTAX_KEYS = {K_ASSIGN, K_RPAREN_EOL}  # these show as a SyntaxError of the bare form
 ANY_KIND_KEYS = {K_GREEDY_GROUP, K_BOOL_IN_SUB}  # the whole-group wrap may or may not parse, depending on what the group holds
-WRONG_RUN_KEYS = {K_STALE_PAREN, K_CONT, K_DOLLAR, K_GREEDY_GROUP}  # these run the wrong commands (or stay Python: NameError)
+WRONG_RUN_KEYS = {K_CONT, K_DOLLAR, K_GREEDY_GROUP}  # these run the wrong commands (or stay Python: NameError)
 
 
 # ---------------------------------------------------------------------------------------- shrinking (for readable witnesses)
@@ -964,6 +955,15 @@ def _parse_codes(cs):
     return _parse_only(uncodes(cs))
 
 
+def _completer_parse(item):
+    """must-pass witness of a repaired hang outside the execer: the tolerant lexer behind tab completion"""
+    _child_init()
+    from xonsh.parsers.completion_context import CompletionContextParser
+
+    text, cursor = item
+    return {"returned": repr(CompletionContextParser().parse(text, cursor))[:120]}
+
+
 def _empty_wrap_probe(cs):
     """the mechanism test for the known hang: run the compilation for a few seconds with execer.subproc_toks observed; does it hand back
     lines with an EMPTY or CROSSING wrap (no `line[:b] + '![' + line[b:e] + ']' + line[e:]` with b < e explains the result — the case the
@@ -1053,6 +1053,10 @@ def internal_trigger(f, s):
         import re
 
         return any(re.match(r"\s*(!\[\])*\]", ln) for ln in s.split("\n"))
+    if t == "for-target":
+        import re
+
+        return any(re.search(r"\bfor\b[^\n]*\bin\b", ln) for ln in s.split("\n"))
     if t == "comma":
         return any("," in ln.split("#")[0] for ln in s.split("\n"))
     if t == "star-before-bang":
@@ -1285,16 +1289,25 @@ def replay_known(ctx):
             fails = v in ("DIFF", "INTERNAL", "HANG")
             detail = rs[0] if rs[0] == common.HANG or "__exc__" in rs[0] else {"bare": {k: rs[0]["bare"][k] for k in ("log", "exc")}, "explicit": {k: rs[0]["expl"][k] for k in ("log", "exc")}}
             ctx.replayed(f["key"], fails, detail)
-            if fails and f.get("status") == "open":
-                ctx.spec_failure({"stream": "known-witness", **w}, detail, f["what"], f["key"])
+            if fails:  # an open finding is reported under its key; a repaired one that fails again is a regression (no key)
+                ctx.spec_failure({"stream": "known-witness", **w}, detail, f["what"], f["key"] if f.get("status") == "open" else None)
+        elif "completer_parse" in w:
+            session()
+            common.scratch_root()
+            r = common.map_in_child(_completer_parse, [w["completer_parse"]], per_item_timeout=20, label="c03-completer")[0]
+            fails = r == common.HANG or (isinstance(r, dict) and "__exc__" in r)
+            ctx.replayed(f["key"], fails, "no answer within 20 s (child killed)" if r == common.HANG else r)
+            if fails:
+                ctx.spec_failure({"stream": "known-witness", **w}, "CompletionContextParser.parse does not return" if r == common.HANG else r, f["what"],
+                                 f["key"] if f.get("status") == "open" else None)
         elif "input_codes" in w or "input_text" in w:
             session()
             common.scratch_root()
             r = common.map_in_child(_parse_codes, [w.get("input_codes") or codes(w["input_text"])], per_item_timeout=30, label="c03-parse")[0]
             fails = r == common.HANG or bool(r.get("exc") and r["exc"][0] == "internal")
             ctx.replayed(f["key"], fails, "no answer within 30 s (child killed)" if r == common.HANG else r)
-            if fails and f.get("status") == "open":
-                ctx.spec_failure({"stream": "known-witness", **w}, r, f["what"], f["key"])
+            if fails:
+                ctx.spec_failure({"stream": "known-witness", **w}, r, f["what"], f["key"] if f.get("status") == "open" else None)
 
 
 def translate(ctx):
